@@ -897,8 +897,9 @@ static int32 parseSafeContents(psPool_t *pool, unsigned char *password,
             if ((rc = psX509ParseCert(pool, p, tmplen, &currCert,
                      CERT_STORE_UNPARSED_BUFFER)) < 0)
             {
+                /* Certificates from earlier bags stay on *cert; the caller
+                   frees that chain on failure. */
                 psX509FreeCert(currCert);
-                *cert = NULL;
                 psTraceCrypto("Couldn't parse certificate from CertBag\n");
                 return rc;
             }
